@@ -72,6 +72,9 @@ type Exec struct {
 	heldHavocked bool
 	// monitors whose lock was acquired (guarded fields were havocked)
 	monitorsAcquired map[string]bool
+	// objects allocated by the function under verification itself (isnew)
+	ownAllocs    []*Term
+	ownAllocType map[*Term]types.Type // element type, for allocations of variables and composite literals
 	topFrame     *Frame
 	siteQualified map[ssa.Instruction]map[string]int
 	sitesHit  map[string]bool
@@ -329,6 +332,22 @@ func (ex *Exec) mapIs(m *Term, mt *types.Map) {
 	ex.assume(ex.ts.True(), ex.ts.Implies(ex.ts.Neq(m, ex.ts.Int(0)), ex.ts.Eq(ex.uf("maptype", SInt, m), id)))
 }
 
+// arrIs records that the (non-nil) backing array arr holds elements of Go type
+// el: arrays of different element types are different objects, although their
+// contents live in one heap array per element sort.
+func (ex *Exec) arrIs(arr *Term, el types.Type) {
+	if arr.IsLit() {
+		return
+	}
+	id := ex.typeID(el)
+	k := -(arr.ID*4096 + int(id.Int.Int64())%4096 + 1) - 1<<40
+	if ex.rangeSeen[k] {
+		return
+	}
+	ex.rangeSeen[k] = true
+	ex.assume(ex.ts.True(), ex.ts.Implies(ex.ts.Neq(arr, ex.ts.Int(0)), ex.ts.Eq(ex.uf("arrtype", SInt, arr), id)))
+}
+
 func (ex *Exec) strLit(s string) *Term {
 	if s == "" {
 		return ex.ts.Int(0)
@@ -366,6 +385,7 @@ func (ex *Exec) freshObject(st *State, name string) *Term {
 	ts := ex.ts
 	r := ts.Fresh("new!"+name, SInt)
 	st.Time++
+	ex.ownAllocs = append(ex.ownAllocs, r)
 	ex.assume(ts.True(), ts.And(
 		ts.Neq(r, ts.Int(0)),
 		ts.Eq(ex.uf("alloctime", SInt, r), ts.Int(int64(st.Time))),
